@@ -1,6 +1,7 @@
 //! C18 part `hist` — reading AS OF a past point returns what was current
 //! then. HIST over committed histories (create / update / archive /
-//! tombstone / retract / supersede / merge / assert / structural edit /
+//! tombstone (Concepts and rival tuples of a functional slot) / retract /
+//! supersede / merge / assert / structural edit /
 //! schema activation) on the real Nexus, starting from the seeded Space.
 //! After every commit s a BATTERY of queries is recorded live; after the last
 //! statement of every history each recording is replayed with `AS OF SEQ s`
@@ -29,8 +30,8 @@ struct StepDef {
 }
 
 /// One representative per mutation kind that rewrites existing elements
-/// (update, archive, retract, supersede, merge) plus schema activation.
-const CORE: [&str; 6] = ["rename-a", "archive-b", "retract", "supersede", "merge-b-into-a", "toggle-schema"];
+/// (update, archive, supersede, merge) plus schema activation.
+const CORE: [&str; 5] = ["rename-a", "archive-b", "supersede", "merge-b-into-a", "toggle-schema"];
 
 fn alphabet() -> Vec<StepDef> {
     let k = |name, text| StepDef { name, op: Op::Kml(text) };
@@ -47,7 +48,10 @@ fn alphabet() -> Vec<StepDef> {
             SUPERSEDE ASSERTION :as1 BY ?new
           }"#),
         k("merge-b-into-a", r#"MERGE CONCEPT ?s INTO ?t WHERE { ?s CONCEPT {key: "b"} ?t CONCEPT {key: "a"} }"#),
-        k("assert-off", r#"ASSERT (:a_ref, "status", "off") { by: :a_ref, mode: "stated", confidence: 0.8, at: "2026-03-01T00:00:00Z" }"#),
+        k("assert-idle", r#"ASSERT (:a_ref, "status", "idle") { by: :a_ref, mode: "stated", confidence: 0.8, at: "2026-03-01T00:00:00Z" }"#),
+        // a rival PROPOSITION of the functional slot (a, status) leaves ordinary recall
+        k("archive-status-off", r#"ARCHIVE "P-3""#),
+        k("tombstone-status-on", r#"TOMBSTONE "P-2""#),
         k("reject-prefers", r#"MUTATE {
             CREATE EVIDENCE ?e { SET FIELDS {evidence_class: "user_statement", payload: "not really", observed_at: "2026-02-03T00:00:00Z"} }
             CREATE ASSERTION ?r { SET FIELDS {proposition: :p, asserted_by: :b, stance: "reject", mode: "stated", confidence: 0.9,
@@ -114,6 +118,9 @@ fn battery() -> Vec<Q> {
         qt("belief-all", r#"FIND(?p.id, ?b) WHERE { ?p PROPOSITION (?s, ?pr, ?o) ?b BELIEF (?p) }"#, &pinned),
         qt("belief-tuple", r#"FIND(?b.status, ?b.support.score) WHERE { ?s CONCEPT {key: "a"} ?o CONCEPT {key: "d"} ?b BELIEF (?s, "prefers", ?o) }"#, &pinned),
         qt("belief-ledger", r#"FIND(?b) WHERE { ?b BELIEF (id: "P-1") }"#, &format!(r#"{pinned} WITH EPISTEMIC {{explanation: "ledger", include_historical: true}}"#)),
+        qt("belief-functional-siblings", r#"FIND(?p.id, ?b.status, ?b.support.score, ?b.opposition.score) WHERE { ?s CONCEPT {key: "a"} ?p PROPOSITION (?s, "status", ?o) ?b BELIEF (?p) }"#, &pinned),
+        qt("belief-functional-sibling-by-id", r#"FIND(?b.status, ?b.opposition) WHERE { ?b BELIEF (id: "P-2") }"#, &pinned),
+        qt("belief-functional-sibling-by-id", r#"FIND(?b.status, ?b.opposition) WHERE { ?b BELIEF (id: "P-3") }"#, &pinned),
         Q { family: "belief-slot", head: r#"FIND(?slot) WHERE { ?slot BELIEF SLOT (:subject, "status") }"#, tail: pinned.clone(), all_coordinates: false, subject_param: true },
         // filters, negation, optional, aggregates, paging
         q("aggregate-count", r#"FIND(COUNT(?c)) WHERE { ?c CONCEPT {} }"#),
@@ -474,7 +481,7 @@ fn main() {
     run.set("alphabet", json!(steps.iter().map(|s| s.name).collect::<Vec<_>>()));
     run.set("comparisons_by_coordinate", json!(by_kind));
     run.rule(
-        "HIST: all histories over the step alphabet from the seeded Space (quick: whole alphabet to depth 2, the 6 kind-representatives CORE at depth 3; thorough: whole alphabet at every depth), a history being extended only while every step commits \
+        "HIST: all histories over the step alphabet from the seeded Space (quick: whole alphabet to depth 2, the 5 kind-representatives CORE at depth 3; thorough: whole alphabet at every depth), a history being extended only while every step commits \
          (refused / no_effect steps are executed and replayed after, then pruned); the battery is recorded live after the seed and after \
          every commit, and after the LAST statement of each history every recording is replayed AS OF SEQ (whole battery) and \
          AS OF TX / AS OF TIME (3 whole-kind queries + META); distinct = (history, last outcome); nontrivial = recorded answer was non-empty",
